@@ -37,6 +37,8 @@ DOCUMENTED_BACKEND_ERRORS = ("MemGenError", "ConfigError", "TypeError", "Schedul
 
 
 def enc_arg(a):
+    if isinstance(a, PC.InvalidCursor):
+        return {"k": "invalid"}
     if isinstance(a, PC.Cursor):
         impl = a._impl
         if isinstance(impl, IC.Node):
@@ -54,6 +56,8 @@ def enc_arg(a):
         return {"k": "config", "name": a.name()}
     if isinstance(a, (list, tuple)):
         return {"k": "list", "items": [enc_arg(x) for x in a]}
+    if callable(a) and getattr(a, "__module__", "") == "exo.stdlib.stdlib":
+        return {"k": "stdfn", "name": a.__name__}
     if a is None or isinstance(a, (int, str, bool, float)):
         return {"k": "lit", "v": a}
     return {"k": "?", "repr": repr(a)}
@@ -88,6 +92,12 @@ def dec_arg(d, p: Procedure, env):
         return [dec_arg(x, p, env) for x in d["items"]]
     if k == "lit":
         return d["v"]
+    if k == "invalid":
+        return PC.InvalidCursor()
+    if k == "stdfn":
+        import exo.stdlib.stdlib as _S
+
+        return getattr(_S, d["name"])
     raise ValueError(f"cannot decode {d}")
 
 
@@ -204,6 +214,92 @@ def with_watchdog(fn, timeout_s=None):
     return r
 
 
+class AtomicTrace:
+    """Harness-side wrapper of AtomicSchedulingOp.__call__ (the repository is not touched): while
+    active, every *outermost* successful call of an atomic scheduling operation is logged with its
+    input procedure, raw arguments and result.  Used to decompose a standard-library composite
+    schedule into the primitive steps it performed, so that a violation of the composite can be
+    localised to the first offending primitive (and replayed / matched against known findings as an
+    ordinary chain of primitives)."""
+
+    def __init__(self):
+        self.steps = []
+        self.depth = 0
+        self.orig = None
+
+    def __enter__(self):
+        import exo.API_scheduling as _AS
+
+        self.orig = _AS.AtomicSchedulingOp.__call__
+        tr = self
+
+        def traced(op_self, *args, **kwargs):
+            if tr.depth > 0:
+                return tr.orig(op_self, *args, **kwargs)
+            try:
+                ba = op_self.sig.bind(*args, **kwargs)
+                ba.apply_defaults()
+                proc = ba.args[0]
+                raw = [list(a) if isinstance(a, list) else a for a in ba.args[1:]]
+            except Exception:
+                proc, raw = None, None
+            tr.depth += 1
+            try:
+                res = tr.orig(op_self, *args, **kwargs)
+            finally:
+                tr.depth -= 1
+            if proc is not None:
+                tr.steps.append({"op": op_self.__name__, "proc": proc, "raw": raw, "out": first_proc(res)})
+            return res
+
+        _AS.AtomicSchedulingOp.__call__ = traced
+        return self
+
+    def __exit__(self, *exc):
+        import exo.API_scheduling as _AS
+
+        _AS.AtomicSchedulingOp.__call__ = self.orig
+        return False
+
+    def path(self, p, q):
+        """the primitive steps leading from p to q, or None"""
+        by_out = {}
+        for st in self.steps:
+            if st["out"] is not None and st["out"] is not st["proc"]:
+                by_out[id(st["out"])] = st
+        seq = []
+        cur = q
+        while cur is not p:
+            st = by_out.get(id(cur))
+            if st is None or len(seq) > 300:
+                return None
+            seq.append(st)
+            cur = st["proc"]
+        return list(reversed(seq))
+
+
+def _forward_raw(a, p_in):
+    import exo.API_scheduling as _AS
+
+    if isinstance(a, _AS.FormattedExprStr):
+        # holes are LoopIR expressions: render them into the string (re-parsed by name in the same scope;
+        # faithfulness is validated by comparing the re-applied step with the traced result)
+        parts = a._expr_str.split("_")
+        if len(parts) - 1 != len(a._expr_holes):
+            raise ValueError("hole count")
+        txt = parts[0]
+        for h, rest in zip(a._expr_holes, parts[1:]):
+            txt += "(" + str(h) + ")" + rest
+        return txt
+    if isinstance(a, PC.InvalidCursor):
+        return a
+    if isinstance(a, PC.Cursor):
+        return a if a.proc() is p_in else p_in.forward(a)
+    if isinstance(a, (list, tuple)):
+        return [_forward_raw(x, p_in) for x in a]
+    return a
+
+
 def apply_op(op, p, args):
     """returns (result procedure or None, exception or None)"""
     try:
@@ -235,7 +331,7 @@ def sweep_seed(job):
     if job.get("chain"):
         # apply a recorded prefix of steps first
         for st in job["chain"]:
-            op = SE.all_ops()[st["op"]]
+            op = SE.all_ops(composite=True)[st["op"]]
             args = [dec_arg(a, p, env) for a in st["args"]]
             p, ex, _ = apply_op(op, p, args)
             if p is None:
@@ -266,6 +362,8 @@ def sweep_seed(job):
     live = [p] + [sp for sp in env["SUBPROCS"]]
     n_attempt = 0
     for opname in sorted(ops):
+        if job.get("atomic", True) is False:
+            break
         if only and opname not in only:
             continue
         op = ops[opname]
@@ -293,7 +391,61 @@ def sweep_seed(job):
                 rec["status"] = "harness_error"
                 rec["why"] = f"{type(ex).__name__}: {ex}"
                 rec["tb"] = traceback.format_exc()[-1500:]
+            rec.pop("_q_obj", None)
+            rec.pop("_trace", None)
             out["instances"].append(rec)
+    if job.get("composites"):
+        from .composites import composite_ops, composite_candidates
+
+        cops = composite_ops()
+        for opname in sorted(cops):
+            if only and opname not in only:
+                continue
+            fn = cops[opname][0]
+            for args in composite_candidates(p, opname, env, rng, job.get("composite_cap", cap)):
+                if time.time() - t_start > budget_s:
+                    out["stats"]["budget_exhausted"] = True
+                    break
+                n_attempt += 1
+                rec = {"op": opname, "args": short_args(args), "enc": None}
+                try:
+                    rec["enc"] = [enc_arg(a) for a in args]
+                except Exception:
+                    pass
+                try:
+                    _one_instance(ctx, p, fn, opname, args, props, live, rec, env, bounds, rng, tier)
+                except (Unsupported, TooBig) as ex:
+                    rec["status"] = "skipped"
+                    rec["why"] = f"{type(ex).__name__}: {ex}"
+                except Exception as ex:
+                    rec["status"] = "harness_error"
+                    rec["why"] = f"{type(ex).__name__}: {ex}"
+                    rec["tb"] = traceback.format_exc()[-1500:]
+                trace = rec.pop("_trace", None)
+                q_obj = rec.pop("_q_obj", None)
+                if trace is not None:
+                    rec["primitive_steps"] = len(trace.steps)
+                if trace is not None and q_obj is not None and _has_violation(rec):
+                    try:
+                        extra = expand_composite(p, q_obj, trace, rec, job, props, live, env, bounds, rng, tier, ctx)
+                    except Exception as ex:
+                        extra = []
+                        rec["localise_error"] = f"{type(ex).__name__}: {ex}"
+                    if any(_has_violation(e) for e in extra):
+                        # reported through the primitive step(s); the composite record keeps only the pointer
+                        rec["localised_to"] = [f"{e['op']}{e['args']}" for e in extra if _has_violation(e)]
+                        for k in VIOL_KEYS:
+                            rec.pop(k, None)
+                        if rec.get("c01") == "differ":
+                            rec["c01"] = "differ_localised"
+                        if rec.get("c05_inline") == "differ":
+                            rec["c05_inline"] = "differ_localised"
+                        if rec.get("c17") in ("mismatch", "reparse_failed"):
+                            rec["c17"] = "localised"
+                        if rec.get("c04_compile") not in (None, "ok"):
+                            rec["c04_p_compiles"] = False
+                    out["instances"].extend(extra)
+                out["instances"].append(rec)
     out["stats"]["attempts"] = n_attempt
     out["stats"]["queries"] = ctx.queries
     out["stats"]["solver_s"] = round(ctx.solver_s, 3)
@@ -314,7 +466,13 @@ def _one_instance(ctx: ProcCtx, p, op, opname, args, props, live, rec, env, boun
             except Exception:
                 pass
     t0 = time.time()
-    q, ex, raw = apply_op(op, p, list(args))
+    trace = None
+    if opname.startswith("std."):
+        with AtomicTrace() as trace:
+            q, ex, raw = apply_op(op, p, list(args))
+        rec["_trace"] = trace
+    else:
+        q, ex, raw = apply_op(op, p, list(args))
     rec["op_s"] = round(time.time() - t0, 3)
     if ex is not None:
         rec["status"] = "op_timeout" if isinstance(ex, OpTimeout) else "rejected"
@@ -352,6 +510,7 @@ def _one_instance(ctx: ProcCtx, p, op, opname, args, props, live, rec, env, boun
             rec["c07_violation"] = bad
     if q is None:
         return
+    rec["_q_obj"] = q
     q_ir = q._loopir_proc
     rec["q_src"] = str(q)
     if "C17" in props:
@@ -476,6 +635,82 @@ def _one_instance(ctx: ProcCtx, p, op, opname, args, props, live, rec, env, boun
                     p_compiles = False
                 rec["c04_p_compiles"] = p_compiles
                 rec["c04_compile_msg"] = str(cex_)[:300]
+
+
+VIOL_KEYS = ("c01_cex", "c04_wf", "c04_obl_violation", "c06_problems", "c07_violation", "c10_origin_mismatch", "illformed")
+
+
+def _has_violation(rec):
+    if rec.get("c01") == "differ" or rec.get("c05_inline") == "differ":
+        return True
+    if rec.get("c17") in ("mismatch", "reparse_failed"):
+        return True
+    cc = rec.get("c04_compile")
+    if cc and cc != "ok" and rec.get("c04_p_compiles") and cc not in ("MemGenError", "ConfigError", "TypeError", "ParallelAnalysisError"):
+        return True
+    return any(rec.get(k) for k in ("c04_wf", "c04_obl_violation", "c06_problems", "c07_violation", "illformed"))
+
+
+def expand_composite(p, q, trace, crec, job, props, live, env, bounds, rng, tier, ctx0):
+    """A composite schedule violated something: re-check each primitive step p_k -> p_{k+1} it performed
+    as an ordinary sweep instance whose chain is the prefix of steps.  Returns the instance records."""
+    steps = trace.path(p, q)
+    if not steps:
+        crec["localise"] = "no primitive path from the source to the result"
+        return []
+    ops = SE.all_ops()
+    chain0 = list(job.get("chain") or [])
+    out = []
+    cur = p
+    prefix = []
+    for k, st in enumerate(steps):
+        if st["proc"] is not cur:
+            crec["localise"] = "trace is not a simple chain"
+            break
+        op = ops.get(st["op"])
+        if op is None:
+            crec["localise"] = f"step {k}: {st['op']} is not a swept primitive"
+            break
+        try:
+            args = [_forward_raw(a, cur) for a in st["raw"]]
+            enc = [enc_arg(a) for a in args]
+        except Exception as ex:
+            crec["localise"] = f"step {k}: arguments not encodable ({type(ex).__name__})"
+            break
+        if any(e.get("k") in ("?", "cursor?") for e in _flat_enc(enc)):
+            crec["localise"] = f"step {k}: arguments not encodable"
+            break
+        rec = {"op": st["op"], "args": short_args(args), "enc": enc, "chain_override": chain0 + list(prefix), "from_composite": f"{crec['op']}{crec['args']}", "p_src_override": str(cur)}
+        try:
+            ctx = ctx0 if cur is p else ProcCtx(cur._loopir_proc, bounds, timeout_ms=job.get("timeout_ms", 30000))
+            if cur is not p:
+                if not ctx.assumptions_sat():
+                    raise Unsupported("assumptions unsatisfiable")
+                ctx._pop()
+            _one_instance(ctx, cur, op, st["op"], args, props, [cur], rec, env, bounds, rng, tier)
+        except (Unsupported, TooBig, L.IllFormed) as ex:
+            rec["status"] = "skipped"
+            rec["why"] = f"{type(ex).__name__}: {ex}"
+        except Exception as ex:
+            rec["status"] = "harness_error"
+            rec["why"] = f"{type(ex).__name__}: {ex}"
+        nxt = rec.pop("_q_obj", None)
+        rec.pop("_trace", None)
+        out.append(rec)
+        if nxt is None or str(nxt) != str(st["out"]):
+            crec["localise"] = f"step {k}: re-applying {st['op']} does not reproduce the traced result"
+            break
+        prefix.append({"op": st["op"], "args": enc})
+        # continue on the *traced* procedure: later raw arguments hold cursors of that lineage
+        cur = st["out"]
+    return out
+
+
+def _flat_enc(enc):
+    for e in enc:
+        yield e
+        if e.get("k") == "list":
+            yield from _flat_enc(e["items"])
 
 
 def c17_check(q, bounds, rec, tier, rng, force_solver=False):
